@@ -67,6 +67,18 @@ CLAIMS = {
         note="Trusted: dnspython resolve(); Python sorted().",
         ref="DESIGN.md section 5 / C20",
     ),
+    "C02": dict(
+        technique="static analysis: loop-variant certificates on interval analysis, order tables (sign-vector truth tables, finite index domain for arithmetic guards), recipe-shape rules with reaching definitions, layout table of the KDF context",
+        text="Decides: both chain walks terminate within 31 KDF steps each; a raise is taken exactly when the seed position is <lex the requested one; the recipe shape of compute_l1_key/compute_l2_key (label, length 64, context constants, decrement-before-derive, same-level chaining, reseed at 31 from the L1 key, RKID||L0||L1||L2 as 4-byte LE signed, SP800-108 parameters); envelope conventions (pre-decrement, reseed) as truth tables; the cache's cover test. Does not decide: equality of the derived bytes with the MS-GKDI chain.",
+        note="Trusted: cryptography's KBKDFHMAC; the MS-GKDI 3.1.4.1.2 recipe transcribed in rules/c02.py.",
+        ref="DESIGN.md section 5 / C02",
+    ),
+    "C10": dict(
+        technique="static analysis: order tables for the cover/store predicates, provenance of every _get_key return, CFG guards for RPC/store discipline, twin diff, no-suspension-point rule; plus C02's termination obligations",
+        text="Decides the invariant each cache operation preserves: stored envelope returned iff >=lex the request; every other non-None return is the fresh (31,31) root-key envelope, which is what gets stored; _store_key overwrites iff no entry or >lex; RPC only on a miss for the same key, store guarded by 'not public key' on every path, sync/async twins; KeyCache methods cannot suspend; derivation from the cached envelope terminates. Does not decide: value-level transparency over whole histories; OS threads.",
+        note="Trusted: C02 obligations; asyncio's no-preemption-between-awaits.",
+        ref="DESIGN.md section 5 / C10",
+    ),
 }
 
 NA_REASON = "check not built yet in this session (design in DESIGN.md section 5); not claimed until its engine passes the self-test"
